@@ -24,6 +24,9 @@ enum Op {
     MarkLlgr,
     DropLlgrStale,
     Nh { up: bool },
+    /// restarting speaker: selection deferral from before the first route
+    StartDeferral,
+    EndDeferral,
 }
 
 fn op_name(o: &Op) -> String {
@@ -38,6 +41,8 @@ fn op_name(o: &Op) -> String {
         Op::MarkLlgr => "mark_llgr_stale(A)".into(),
         Op::DropLlgrStale => "drop_llgr_stale_families(A)".into(),
         Op::Nh { up } => format!("update_nexthop_validity(N1,{})", if *up { "up" } else { "down" }),
+        Op::StartDeferral => "start_deferral".into(),
+        Op::EndDeferral => "end_deferral".into(),
     }
 }
 
@@ -91,6 +96,8 @@ pub(crate) struct Sys {
     pool: Vec<Arc<Vec<packet::Attribute>>>,
     nets: Vec<packet::Nlri>,
     nh_down: bool,
+    deferring: bool,
+    touched: bool,
     best: BTreeMap<String, (u32, Snap)>,
     all: BTreeMap<String, Vec<(u32, Snap)>>,
     broken: BTreeSet<String>,
@@ -124,6 +131,8 @@ impl Model for TmModel {
             pool: (0..3).map(|i| Arc::new(attrs(i))).collect(),
             nets: self.nets.clone(),
             nh_down: false,
+            deferring: false,
+            touched: false,
             best: BTreeMap::new(),
             all: BTreeMap::new(),
             broken: BTreeSet::new(),
@@ -192,7 +201,22 @@ impl Model for TmModel {
                 sys.nh_down = !*up;
                 sys.tables.update_nexthop_validity(nh().addr(), *up);
             }
+            Op::StartDeferral => {
+                if sys.touched || sys.deferring {
+                    return false;
+                }
+                sys.tables.start_deferral_families(&[f]);
+                sys.deferring = true;
+            }
+            Op::EndDeferral => {
+                if !sys.deferring {
+                    return false;
+                }
+                sys.tables.end_deferral_families(&[f]);
+                sys.deferring = false;
+            }
         }
+        sys.touched = true;
         // fold what the peer channel delivered
         while let Ok(ev) = sys.obs.try_recv() {
             if let ToPeerEvent::NlriChange(c) = ev {
@@ -225,6 +249,20 @@ impl Model for TmModel {
         }
         let kind = op_name(o).split('(').next().unwrap_or("").to_string();
         let mut cur = Vec::new();
+        // consumers key what they hold by destination id: two live prefixes must never share one,
+        // whatever shard they are on
+        let mut ids: BTreeMap<u32, String> = BTreeMap::new();
+        for c in sys.tables.collect_loc_rib_paths(f) {
+            if let Some(other) = ids.insert(c.dest_id, format!("{}", c.net)) {
+                cur.push((format!("C06/tm-dest-id-shared/{kind}"), format!("after {}: the live prefixes {} and {} are both announced under destination id {:#x}", op_name(o), other, c.net, c.dest_id)));
+                break;
+            }
+        }
+        // while selection is deferred the notifications are held back; the fold is compared again afterwards
+        if sys.deferring {
+            want_best = sys.best.clone();
+            want_all = sys.all.clone();
+        }
         if want_best != sys.best {
             cur.push((
                 format!("C06/tm-best-fold-mismatch/{kind}"),
@@ -263,7 +301,7 @@ impl Model for TmModel {
         let loc: Vec<String> = sys.tables.collect_loc_rib_paths(Family::IPV4).iter().map(|c| format!("{}:{:?}", c.net, c.current_paths.iter().map(|p| (p.local_path_id, sid(Arc::as_ptr(&p.source) as usize))).collect::<Vec<_>>())).collect();
         let mut loc = loc;
         loc.sort();
-        format!("{:?}|{:?}|{:?}|{:?}|{}|{}|{}|{:?}", rib, loc, v(&sys.best), va, sys.a_up, sys.a.len(), sys.nh_down, sys.broken).into_bytes()
+        format!("{:?}|{:?}|{:?}|{:?}|{}|{}|{}|{:?}|{}{}", rib, loc, v(&sys.best), va, sys.a_up, sys.a.len(), sys.nh_down, sys.broken, sys.deferring as u8, sys.touched as u8).into_bytes()
     }
     fn observe(&self, sys: &Sys) -> u64 {
         sys.best.len() as u64 * 8 + sys.all.values().map(|v| v.len() as u64).sum::<u64>()
@@ -297,7 +335,7 @@ fn model() -> TmModel {
     ops.push(Op::Insert { peer: 1, pfx: 0, attr: 0 });
     ops.push(Op::Remove { peer: 1, pfx: 0 });
     ops.push(Op::Insert { peer: 2, pfx: 1, attr: 1 });
-    ops.extend([Op::Down { stale: true }, Op::Down { stale: false }, Op::DownLlgrOnly, Op::Reconnect, Op::DropStale, Op::MarkLlgr, Op::DropLlgrStale, Op::Nh { up: false }, Op::Nh { up: true }]);
+    ops.extend([Op::Down { stale: true }, Op::Down { stale: false }, Op::DownLlgrOnly, Op::Reconnect, Op::DropStale, Op::MarkLlgr, Op::DropLlgrStale, Op::Nh { up: false }, Op::Nh { up: true }, Op::StartDeferral, Op::EndDeferral]);
     TmModel { ops, nets }
 }
 
